@@ -20,6 +20,8 @@ LEVEL_TEXT = {
     "C14": ("exploration", "Growth probe on every reallocating listed call: new capacity >= required and >= 1.5x old unless saturated at max_size().", "§4 C14"),
     "C15": ("exploration", "Instrumented single-pass iterators (shared cursor) trap double dereference, skipped positions, stale copies and access at/past last; multi-pass iterators trap walking outside [first,last]; generator call log; result compared with the model.", "§4 C15"),
     "C16": ("exploration", "Exhaustive differential test against std::vector over all pairs of small contents x capacity pairs x four element types for ==, !=, <, <=, >, >= and <=>, with consistency laws, in four builds (g++/clang++ x C++17/C++20) whose verdict tables are cross-checked; non-member erase/erase_if/swap/accessors; rapidcheck contents beyond the bound.", "§4 C16"),
+    "C18": ("fault_enumeration", "Static: generated TUs tabulate noexcept(...) for every documented operation over {nothrow/throwing move ctor, move assign, swap} x N x source capacity relation x allocator traits x standards and compare with independently coded README conditions; iterator/nested-type facts. Run-time: every fault point of every generated (state, operation) is injected; a std::terminate is a violation; operations declared noexcept must reach no potentially-throwing point.", "§4 C18"),
+    "C19": ("exploration", "Exhaustive configuration grid (3408 points per ideal size): sizeof/alignof/default_buffer_size of real instantiations compared with the property's own statement (largest count fitting 64 bytes, else 1; N=0 stateless = pointer + 2 size_type; alignment), evaluated independently in Python.", "§4 C19"),
 }
 
 
@@ -70,6 +72,8 @@ TECHNIQUE = {
     "C13": "differential property testing (trivially copyable twin vs non-trivial type), trace comparison",
     "C14": "stateful property testing with a geometric-growth oracle",
     "C15": "property testing with instrumented single-pass / checked iterators",
+    "C18": "exhaustive configuration-grid enumeration of noexcept/trait values against independently coded conditions, plus property-based fault injection with a terminate oracle",
+    "C19": "exhaustive configuration-grid enumeration with an independent size/alignment oracle",
     "C16": "exhaustive small-domain differential testing against std::vector plus rapidcheck-generated contents, cross-build table comparison",
 }
 
@@ -78,6 +82,7 @@ ENGINES = [
      "kind_free_text": "rapidcheck-generated operation programs interpreted against small_vector and a std::vector model, with probes"},
     {"name": "lim", "path": "harness/lim_main.cpp", "serves_properties": ["C12"], "kind_free_text": "narrow size_type / small max_size() allocators, exhaustive and boundary-biased enumeration"},
     {"name": "cmp", "path": "harness/cmp_main.cpp", "serves_properties": ["C16"], "kind_free_text": "comparison / non-member differential against std::vector, 4 toolchain builds"},
+    {"name": "grid", "path": "vlib/grid.py (generates translation units)", "serves_properties": ["C18", "C19"], "kind_free_text": "generated TUs tabulating compile-time facts over configuration grids, oracle in Python"},
     {"name": "fault", "path": "harness/hist_main.cpp (fault mode)", "serves_properties": ["C05", "C06"],
      "kind_free_text": "prefix + operation under test, every fault point enumerated"},
 ]
